@@ -150,6 +150,15 @@ pub fn main(args: &[String]) {
         if r.gen_bool(0.4) {
             if rd.ends_with(b"\x03www\x01a\x00") { let l = rd.len(); rd.truncate(l - 7); rd.extend_from_slice(&[0xc0, 12]); }
             else if rd.ends_with(b"\x01a\x00") { let l = rd.len(); rd.truncate(l - 3); rd.extend_from_slice(&[0xc0, 16]); }
+        } else if (ty == 6 || ty == 14) && r.gen_bool(0.3) {
+            // SOA / MINFO whose second name is a pointer to the root label that ends the first one (the octet right
+            // before it): a legal way to write "."
+            let first = b"\x02ns\x03www\x01a\x00";
+            let root_at = cursor + first.len() - 1;
+            let mut v = first.to_vec();
+            v.extend_from_slice(&[0xc0 | (root_at >> 8) as u8, (root_at & 0xff) as u8]);
+            if ty == 6 { v.extend_from_slice(&[0; 19]); v.push(r.gen_range(0..2)); }
+            rd = v;
         } else if r.gen_bool(0.4) {
             // a compressed name that is not at the end of the RDATA (CH A, SOA MNAME, MINFO, MX, SRV, ...)
             if let Some(st) = name_start(class, ty) { if let Some(v) = compress_name_at(&rd, st) { rd = v; } }
